@@ -71,6 +71,9 @@ class SN(ASTNode):
     def __len__(self) -> int:  # container-like: falsy in a boolean context while `items` is empty (may still hold other children)
         return len(self.items)
 
+    def __iter__(self):  # container-like: iterating over the node yields its `items`
+        return iter(self.items)
+
 
 class IntShift(Dialect):
     serialization_strategy = {int: {"serialize": lambda x: x + 1000, "deserialize": lambda x: x - 1000}}  # noqa: RUF012
